@@ -60,6 +60,28 @@ func (f *Same) Call(s *slip.Scope, args slip.List, depth int) slip.Object {
 }
 
 func same(x, y slip.Object) slip.Object {
+	// A rational and a float, or an integer and a ratio, are compared by
+	// value. Normalizing rounds the rational to the float type which makes
+	// two different integers the same as one float.
+	x, y = fixOrBig(x), fixOrBig(y)
+	switch x.(type) {
+	case slip.Fixnum, *slip.Bignum, *slip.Ratio:
+		switch y.(type) {
+		case slip.SingleFloat, slip.DoubleFloat, *slip.LongFloat, *slip.Bignum, *slip.Ratio:
+			if !x.Equal(y) {
+				return nil
+			}
+			return y
+		}
+	case slip.SingleFloat, slip.DoubleFloat, *slip.LongFloat:
+		switch y.(type) {
+		case slip.Fixnum, *slip.Bignum, *slip.Ratio:
+			if !x.Equal(y) {
+				return nil
+			}
+			return y
+		}
+	}
 	x, y = slip.NormalizeNumber(x, y)
 	switch tx := x.(type) {
 	case slip.Fixnum:
@@ -92,4 +114,16 @@ func same(x, y slip.Object) slip.Object {
 		}
 	}
 	return y
+}
+
+// fixOrBig returns a signed-byte or unsigned-byte as a fixnum or bignum and
+// any other object as it is.
+func fixOrBig(n slip.Object) slip.Object {
+	switch tn := n.(type) {
+	case *slip.SignedByte:
+		n = tn.AsFixOrBig()
+	case *slip.UnsignedByte:
+		n = tn.AsFixOrBig()
+	}
+	return n
 }
